@@ -39,7 +39,7 @@ Eager == (Internal \/ Honour) /\ UNCHANGED <<hist, stale>>
 
 Send(id) == /\ id \in Ids /\ id \notin stale
             /\ Rec([a |-> "msg", p |-> Peer(id), m |-> id]) /\ LoopArrive(<<id>>) /\ Keep
-Blk(b)   == /\ b \in Blockers /\ Rec([a |-> "block", m |-> b]) /\ LoopArrive(<<b>>) /\ Keep
+Blk(b)   == /\ b \in Blockers /\ sent[b] = 0 /\ Rec([a |-> "block", m |-> b]) /\ LoopArrive(<<b>>) /\ Keep
 SendBurst(b) == /\ Len(b) > 1 /\ \A i \in DOMAIN b : b[i] \in Ids \ stale
                 /\ Rec([a |-> "burst", p |-> Peer(b[1]), ms |-> b]) /\ LoopArrive(b)
                 /\ racy' = TRUE /\ UNCHANGED stale
